@@ -454,7 +454,9 @@ func encodeLeaf(p IPath, den string, enc gnmi.Encoding) *gnmi.Update {
 }
 
 // Representable reports whether the device can report the leaf in the encoding.
-func GNMIRepresentable(p IPath, den string, enc gnmi.Encoding) bool { return encodeLeaf(p, den, enc) != nil }
+func GNMIRepresentable(p IPath, den string, enc gnmi.Encoding) bool {
+	return encodeLeaf(p, den, enc) != nil
+}
 
 // notificationsFor renders the part of c below the given paths.
 func (d *GNMIDevice) notificationsFor(c Conf, under []IPath, enc gnmi.Encoding, configOnly bool) []*gnmi.Notification {
@@ -778,8 +780,8 @@ func (t *GNMITee) Sync(ctx context.Context, c *config.Sync, ch chan *target.Sync
 		t.Real.Sync(ctx, c, ch)
 	}
 }
-func (t *GNMITee) Status() *target.TargetStatus                                        { return t.Real.Status() }
-func (t *GNMITee) Close() error                                                        { return t.Real.Close() }
+func (t *GNMITee) Status() *target.TargetStatus { return t.Real.Status() }
+func (t *GNMITee) Close() error                 { return t.Real.Close() }
 
 // GNMIWrap returns a HistEnvOpts.WrapTarget that puts the real gnmiTarget (encoding enc) and an in-process gNMI
 // device next to the recording device; *out receives the tee. The caller stops (*out).GDev when the case ends.
